@@ -247,6 +247,8 @@ func jobC06(c *rt.Ctx) {
 	for _, vs := range vAll {
 		opts = append(opts, optset{vs, false}, optset{vs, true})
 	}
+	// maximum-length contexts (the dom2 prefix is then 289 bytes)
+	opts = append(opts, optset{vSpace[3], false}, optset{vSpace[4], true})
 	sizes := []int{0, 1, 2, 3, 4, 5, 6, 7, 8, 9, 62, 63, 64, 65, 66, 67, 68, 69, 126, 127, 128, 129, 130, 131, 192, 193, 200}
 	interesting := func(n int) []int {
 		m := map[int]bool{}
